@@ -150,6 +150,13 @@ func (proj *Project) Reload() (err error) {
 	proj.flags = map[string]*Flag{}
 	proj.modules = map[string]*module{}
 	proj.targets = map[string]*runTarget{}
+
+	// The project's configuration may have changed, too: its requirements decide which
+	// versions of other projects' modules are loaded.
+	if err := proj.loadConfig(); err != nil {
+		proj.events.LoadDone(err)
+		return err
+	}
 	return proj.load(false)
 }
 
